@@ -46,3 +46,30 @@ def scramble(mapping, salt):
     if mapping and len(mapping) > 1 and int(salt) % 2 == 0:
         return dict(reversed(list(mapping.items())))
     return mapping
+
+
+def labelled_field(df, mesh, nvdim, value, vdims, vdim_mapping, salt, **kw):
+    """Field(mesh, nvdim, value, vdims, vdim_mapping, **kw) - for every third `salt` built with provisional labels whose
+    mapping is written in another key order, the final labels being assigned afterwards (`f.vdims = ...`): the mapping
+    must follow the components by NAME.  (Seeded change C12-11 rebuilt the mapping by position in the vdims setter; every
+    operation that pairs components with axes - rotate90, curl, plots, arbitrary rotations - is wrong afterwards.)"""
+    if vdims and nvdim > 1 and vdim_mapping and len(vdim_mapping) == nvdim and int(salt) % 3 == 0 \
+            and all(v in vdim_mapping for v in vdims):
+        tmp = [f"t{c}" for c in range(nvdim)]
+        m0 = dict(reversed([(tmp[c], vdim_mapping[vdims[c]]) for c in range(nvdim)]))
+        f = df.Field(mesh, nvdim=nvdim, value=value, vdims=tmp, vdim_mapping=m0, **kw)
+        f.vdims = list(vdims)
+        return f
+    return df.Field(mesh, nvdim=nvdim, value=value, vdims=vdims, vdim_mapping=vdim_mapping, **kw)
+
+
+def disown(regions):
+    """The Region objects a caller hands to Mesh(subregions=...) / mesh.subregions = ... stay the caller's: here the
+    caller moves them away afterwards (in place).  A mesh that kept the objects instead of its own copies now holds
+    subregions outside its region (seeded change C13-12 made the setter reuse the objects it is given)."""
+    for r in (regions or {}).values():
+        try:
+            r.translate(tuple(3.0 * float(e) + 1.0 for e in r.edges), inplace=True)
+        except Exception:  # the harness's own throw-away object: nothing to learn from a refusal here
+            pass
+    return regions
